@@ -2,7 +2,7 @@
    Statements only; the proofs are in Proofs/Skeleton.v and Proofs/HostCmd.v.
    Gen/C03Skeleton.v is regenerated from bumble/controller.py and bumble/hci.py on every run. *)
 From Coq Require Import ZArith List Bool.
-From BV Require Import Model.Skeleton Model.HostCmd Model.HostShape Model.CtrlProc Model.CtrlProcShape Proofs.Skeleton Proofs.HostCmd Proofs.CtrlProc Gen.C03Skeleton Gen.C03HostShape Gen.C03ProcShape.
+From BV Require Import Model.Skeleton Model.HostCmd Model.HostShape Model.CtrlProc Model.CtrlProcShape Model.CisProc Proofs.Skeleton Proofs.HostCmd Proofs.CtrlProc Proofs.CisProc Gen.C03Skeleton Gen.C03HostShape Gen.C03ProcShape.
 Import ListNotations.
 Open Scope Z_scope.
 
@@ -192,6 +192,44 @@ Example C03_connected_state_nonvacuous :
   map (fun k => (k_handle k, k_addr k)) (p_conns connected_state) = [(1, 2); (2, 3)] /\
   p_peer_conn connected_state = [2] /\ p_quiet connected_state = true.
 Proof. vm_compute. auto. Qed.
+
+(* ---- CIS set-up and tear-down (Model/CisProc.v: Set CIG, Remove CIG, Create CIS, Disconnect of a CIS
+   and of the ACL, the peer's host accepting when it pleases or dropping the ACL, PDUs delivered one
+   at a time in any order): after EVERY schedule of at most 5 steps from the initial state, and at
+   most 6 steps from a state with a CIG configured, whose steps do not re-configure / remove a CIG
+   while one of its CIS is being created, delivering what is in flight leaves only CIS creations
+   that wait for the peer's host. *)
+Theorem C03_cis_bounded_scope_checked :
+  cis_all_ok 5 c_init = true /\ cis_all_ok 6 cis_configured = true.
+Proof. vm_compute. split; reflexivity. Qed.
+Print Assumptions C03_cis_bounded_scope_checked.
+
+Theorem C03_cis_setup_concludes : forall xs,
+  Forall (fun o => In o cis_alphabet) xs ->
+  ((length xs <= 5)%nat -> cis_run_ok c_init xs = true -> cconcludes (fst (crun c_init xs)) = true) /\
+  ((length xs <= 6)%nat -> cis_run_ok cis_configured xs = true -> cconcludes (fst (crun cis_configured xs)) = true).
+Proof.
+  intros xs F. destruct C03_cis_bounded_scope_checked as [A B]. split; intros L R.
+  - exact (cis_all_ok_spec 5 _ A xs L F R).
+  - exact (cis_all_ok_spec 6 _ B xs L F R).
+Qed.
+Print Assumptions C03_cis_setup_concludes.
+
+(* the hypothesis is needed: a CIG removed while the peer's host still holds the request *)
+Theorem C03_cig_removed_refuted :
+  let s := fst (crun c_init [CCmd (SetCig 1 [1]); CCmd (CreateCis 2 1); CToPeer; CCmd (RemoveCig 1);
+                             PeerAcceptCis; CToCut]) in
+  c_open s = [2] /\ c_to s = [] /\ c_from s = [] /\ cconcludes s = false.
+Proof. exact cig_removed_refuted. Qed.
+Print Assumptions C03_cig_removed_refuted.
+
+Example C03_cis_nonvacuous :
+  cis_groups_obs [[CCmd (SetCig 1 [1; 2])]; [CCmd (CreateCis 2 1)]; [PeerAcceptCis]; [CCmd (CreateCis 3 7)];
+                  [CCmd (DisconnectH 2)]; [CCmd (DisconnectH 2)]; [CCmd (CreateCis 3 1); CCmd (DisconnectH 1)];
+                  [PeerAcceptCis]]
+  = ([[8; 1; 2; 3]; [0; 8292; 0]; [10; 2]; [0; 8292; 18]; [0; 1030; 0]; [3; 2]; [0; 1030; 2]; [0; 8292; 0];
+      [0; 1030; 0]; [3; 1]], [], true).
+Proof. exact cis_example. Qed.
 
 (* ---------------------------------------------------------------- the models match the source *)
 
